@@ -82,7 +82,10 @@ def budget_case(case) -> List[Tuple[str, str]]:
         s = Session(os.path.join(work, "s"), base_cfg=over)
         s.text = case["text"]
         if case.get("warm"):
-            loose = {"scheduler": {"enabled": True, "quantum_ms": case["quantum"], "budgets": {"wall_ms": case["wall"]}},
+            # (generous explicit stage budgets in every other warm case: the next turn REUSES the context object, and what the
+            # warm-up turn derived for its slice must not stand in for the budgets configured now)
+            gen = {"t1_pops": 50, "t1_iters": 50, "t2_k": 50, "t3_ops": 50} if len(case["text"]) % 2 == 0 or case.get("reuse_ctx") else {}
+            loose = {"scheduler": {"enabled": True, "quantum_ms": case["quantum"], "budgets": dict(gen, wall_ms=case["wall"])},
                      "t1": over["t1"], "t2": over["t2"]}
             s.base_cfg = loose
             w0 = s.run({"sched": True, "kill": True})
@@ -90,7 +93,7 @@ def budget_case(case) -> List[Tuple[str, str]]:
                 return [("BudgetsClamp", f"{case}: warm-up run_turn raised {w0['raised']}")]
             s.base_cfg = over
         # scripted clock: constant, or a jump at the first boundary check
-        inp = {"sched": True, "cfg_extra": over}
+        inp = {"sched": True, "cfg_extra": over, "reuse": bool(case.get("warm"))}
         import clematis.engine.orchestrator as orch_
         from clematis.engine.stages.t2 import t2_semantic as real_t2
         seen_t2: Dict[str, Any] = {}
@@ -183,7 +186,7 @@ def check(run) -> None:
     run.sample({"family": "turn_yield", "inp": cases[-1]["inp"], "log": cases[-1]["log"]}, cap=12)
     # budgets
     bcases = []
-    vals = {"t1_pops": [None, 0, 1, 3], "t1_iters": [None, 0, 1, 2] if not q else [None, 1], "t2_k": [None, 0, 1, 2], "t3_ops": [None, 0, 1, 2] if not q else [None, 1]}
+    vals = {"t1_pops": [None, 0, 1, 3], "t1_iters": [None, 0, 1, 2] if not q else [None, 1], "t2_k": [None, 0, 1, 2], "t3_ops": [None, 0, 1, 2] if not q else [None, 0, 1]}
     import itertools
     for pops, iters, k, ops in itertools.product(vals["t1_pops"], vals["t1_iters"], vals["t2_k"], vals["t3_ops"]):
         b = {kk: vv for kk, vv in (("t1_pops", pops), ("t1_iters", iters), ("t2_k", k), ("t3_ops", ops)) if vv is not None}
